@@ -725,7 +725,10 @@ def determinism_selftest(check_id, tier, master, cfg, workers, br, log):
     another PYTHONHASHSEED; event-log digests must agree."""
     k = cfg.get("det_seeds", 16)
     base = {r["index"]: r["digest"] for r in br.results}
-    idx = [i for i in sorted(base)][:k]
+    allidx = sorted(base)
+    # spread the sample over the whole batch (the first indices are the stratified small cases only)
+    step = max(1, len(allidx) // max(k, 1))
+    idx = allidx[::step][:k]
     check = load_check(check_id)
     plans = []
     for i in idx:
